@@ -11,6 +11,7 @@
 import json
 import re
 import sys
+import time
 
 from .. import badProgGen as bg
 from .. import dump_tree as dt
@@ -41,26 +42,26 @@ def build_cases(ctx):
     groups = [
         bg.gen_lexing(rng, ctx.n(60, 400)), bg.gen_syntax(rng, ctx.n(260, 1500)), bg.gen_names(rng, ctx.n(120, 600)),
         bg.gen_layout(rng, ctx.n(176, 880)), bg.gen_range(rng, ctx.n(256, 2048)), bg.gen_arith(rng, ctx.n(360, 2880)),
-        bg.gen_recursion(rng, ctx.n(90, 184)), bg.gen_collisions(rng, ctx.n(76, 304)), bg.gen_huge(rng, ctx.n(45, 90), mem),
+        bg.gen_recursion(rng, ctx.n(90, 184)), bg.gen_collisions(rng, ctx.n(76, 304)), bg.gen_huge(rng, ctx.n(48, 96), mem),
     ]
     valid = bg.gen_valid(rng, ctx.n(150, 1500))
     groups.append(valid)
     corpus = [(f'nostl{i}', t, False) for i, t in enumerate(bg.NOSTL_SAMPLES)]
     corpus += [(f'stl{i}', t, True) for i, t in enumerate(bg.STL_SAMPLES)]
     corpus += [(f'gen{i}', c['text'], False) for i, c in enumerate(valid[:40])]
-    corpus += [(n, t, True) for n, t in bg.repo_corpus(fw.REPO, rng, ctx.n(70, 400))]
+    corpus += [(n, t, True) for n, t in bg.repo_corpus(fw.REPO, rng, ctx.n(50, 400))]
     # the unmodified corpus is assembled first: only programs that assemble quickly are mutated (a mutant of a program
     # that needs seconds would make the watchdog meaningless)
     ccases = finish_cases([bg.case('corpus', t, f'unmodified {n}', stl=s, w=w) for n, t, s in corpus
                            for w in ((32, 64) if s else bg.WIDTHS)], 0)
     for c in ccases:
-        c['timeout'] = WATCHDOG
+        c['timeout'] = FIRST_PASS
     cobs = run_cases(ctx, ccases)
     fast = [(c['hint'][11:], c['text'], c['stl'], c['w']) for c, o in zip(ccases, cobs) if o['result'] == 'ok' and o['secs'] <= 1.0]
     ctx.coverage['corpus'] = {'programs': len(corpus), 'assembled_quickly_and_mutated': len(fast), 'runs': len(ccases)}
     if not fast:
         raise RuntimeError('no program of the mutation corpus assembles: ' + json.dumps([o.get('msg', o['result'])[:200] for o in cobs[:3]]))
-    groups.append(bg.gen_mutations(rng, ctx.n(2000, 40000), fast))
+    groups.append(bg.gen_mutations(rng, ctx.n(1600, 40000), fast))
     cases = finish_cases([c for g in groups for c in g], len(ccases))
     return ccases + cases, cobs
 
@@ -132,8 +133,10 @@ def judge(case, obs):
     if res == 'hang':
         # a count nobody can materialise must be refused; a program that is merely large may legitimately need longer than
         # the watchdog, so an expiry without such a count in the source is recorded as inconclusive, not as a violation
-        if case.get('slow') or HUGE_COUNT.search(case['hint']):
-            v.append(({'kind': 'hang', 'gen': case['cls']}, f'assembly did not finish within the watchdog ({case["hint"][:120]})'))
+        # (whatever the killed process had already written says nothing either)
+        if not (case.get('slow') or HUGE_COUNT.search(case['hint'])):
+            return []
+        v.append(({'kind': 'hang', 'gen': case['cls']}, f'assembly did not finish within the watchdog ({case["hint"][:120]})'))
     elif res == 'crash':
         v.append(({'kind': 'crash', 'gen': case['cls']}, f'the assembling process died (status {obs.get("status")})'))
     elif res == 'exception':
@@ -149,9 +152,8 @@ def judge(case, obs):
         elif obs['cls'] not in ASM_EXCEPTIONS:
             v.append(({'kind': 'unspecific', 'exc': obs['cls'], 'frame': obs['frame']},
                       f'{obs["cls"]} is not one of the specific assembly exceptions'))
-        elif not names_construct(obs):
-            v.append(({'kind': 'unnamed-construct', 'exc': obs['cls'], 'frame': obs['frame']},
-                      f'{obs["cls"]} whose message names no file/line, identifier or address: {obs["msg"][:160]!r}'))
+        # a specific exception whose message names no file/line, identifier or address (names_construct) is counted in the
+        # evidence (histogram diagnostic_site) only: such messages name the situation, which the property accepts
     if failed and obs.get('out_exists') and obs.get('reader') == 'accepts':
         v.append(({'kind': 'loadable-file-after-failure', 'result': res, 'frame': obs.get('frame')},
                   'the assembly failed but the output path holds a file that fjm_reader.Reader accepts'))
@@ -212,15 +214,21 @@ def shrink(ctx, case, sig):
 # ---- the Coq model on the same programs ------------------------------------------------------------------------------
 
 COQ_HEADER = ('From FJ Require Import Lib.Base Model.Ast Model.AsmErrors.\n'
-              'Local Open Scope string_scope.\nLocal Open Scope N_scope.\n')
+              'Local Open Scope string_scope.\nLocal Open Scope N_scope.\n'
+              # builders of the deep expression trees of badProgGen.gen_recursion (n wrappers around the leaf)
+              'Fixpoint deep_left (n : nat) (l : expr) : expr := match n with O => l | S k => EOp OAdd [deep_left k l; l] end.\n'
+              'Fixpoint deep_right (n : nat) (l : expr) : expr := match n with O => l | S k => EOp OAdd [l; deep_right k l] end.\n'
+              'Fixpoint deep_unary (n : nat) (l : expr) : expr := match n with O => l | S k => EOp ONot [deep_unary k l] end.\n'
+              'Fixpoint deep_cond (n : nat) (l : expr) : expr := match n with O => l | S k => EOp OCond [l; EInt 1%Z; deep_cond k l] end.\n')
 
 LIB_CODE = [  # (exception class, regex on the message) -> libkind code of AsmErrors.libkind_code
-    ('FlipJumpExprException', r'negative exponent', 1), ('FlipJumpExprException', r'bad math operation', 2),
+    ('FlipJumpExprException', r'bad math operation', 2), ('FlipJumpExprException', r'negative exponent', 1),
     ('FlipJumpExprException', r'Bad label swap', 3), ('FlipJumpExprException', r"Can't calculate rep arguments", 4),
     ('FlipJumpPreprocessorException', r"is used but isn't defined", 10), ('FlipJumpPreprocessorException', r'maximal macro-expansion', 11),
     ('FlipJumpPreprocessorException', r'label declared twice', 12), ('FlipJumpPreprocessorException', r"Can't evaluate how many times", 13),
     ('FlipJumpPreprocessorException', r"Can't evaluate how much to pad", 14), ('FlipJumpPreprocessorException', r"'pad' must get a positive", 15),
     ('FlipJumpPreprocessorException', r"'pad' requires the current address", 16), ('FlipJumpPreprocessorException', r'segment failed', 17),
+    ('FlipJumpPreprocessorException', r"'pad .* needs .* padding ops", 21), ('FlipJumpWriteFjmException', r'data word', 40),
     ('FlipJumpPreprocessorException', r'segment ops must have', 18), ('FlipJumpPreprocessorException', r'reserve failed', 19),
     ('FlipJumpPreprocessorException', r'reserve ops must have', 20),
     ('FlipJumpAssemblerException', r'Not enough space.* in op ', 31), ('FlipJumpAssemblerException', r' in op ', 30),
@@ -252,12 +260,77 @@ def file_code(obs):
     return 0 if not obs['out_exists'] else (2 if obs['result'] == 'ok' else 1)
 
 
+def expr_coq(e):
+    """dump_tree.expr_to_coq without recursion (the generated trees are thousands of levels deep)"""
+    out = []
+    stack = [e]
+    while stack:
+        x = stack.pop()
+        if isinstance(x, tuple):        # literal text to emit
+            out.append(x[0])
+        elif isinstance(x, bool) or x is None:
+            raise dt.DumpError(f'bad expression JSON {x!r}')
+        elif isinstance(x, int):
+            # a decimal numeral of thousands of digits takes coqc minutes to read; hexadecimal is linear
+            out.append(f'EInt {dt.coq_z(x)}' if abs(x) < 10 ** 40 else f'EInt ({"-" if x < 0 else ""}0x{abs(x):x})%Z')
+        elif isinstance(x, str):
+            out.append(f'ELbl {dt.coq_string(x)}')
+        elif isinstance(x, list) and len(x) == 2 and x[0] == '@deep':
+            kind, n, leaf = x[1]
+            out.append(f'(deep_{kind.replace("-sum", "")} {int(n)}%nat (')
+            stack.append(('))',))
+            stack.append(leaf)
+        elif isinstance(x, list) and len(x) == 2 and x[0] in dt.OPS_COQ and len(x[1]) == dt.OPS_ARITY[x[0]]:
+            out.append(f'EOp {dt.OPS_COQ[x[0]]} [')
+            stack.append((']',))
+            for i, a in enumerate(reversed(x[1])):
+                stack.append(a)
+                if i < len(x[1]) - 1:
+                    stack.append(('; ',))
+        else:
+            raise dt.DumpError(f'bad expression JSON {str(x)[:80]!r}')
+    return ''.join(out)
+
+
+def stmt_coq(s):
+    p = dt.pos_to_coq(s['pos'])
+    e = lambda k: '(' + expr_coq(s[k]) + ')'        # noqa
+    es = lambda k: '[' + '; '.join(expr_coq(a) for a in s[k]) + ']'     # noqa
+    t = s['t']
+    if t == 'FlipJump':
+        return f'SFlipJump {e("flip")} {e("jump")} {p}'
+    if t == 'WordFlip':
+        return f'SWordFlip {e("addr")} {e("value")} {e("ret")} {p}'
+    if t == 'Pad':
+        return f'SPad {e("align")} {p}'
+    if t == 'Label':
+        return f'SLabel {dt.coq_string(s["name"])} {p}'
+    if t == 'MacroCall':
+        return f'SMacroCall {dt.coq_string(s["name"])} {es("args")} {p}'
+    if t == 'RepCall':
+        return f'SRepCall {e("times")} {dt.coq_string(s["iter"])} {dt.coq_string(s["name"])} {es("args")} {p}'
+    if t == 'Segment':
+        return f'SSegment {e("start")} {p}'
+    if t == 'Reserve':
+        return f'SReserve {e("size")} {p}'
+    raise dt.DumpError(f'unknown statement {t!r}')
+
+
+def tree_coq(tree):
+    ms = []
+    for m in tree['macros']:
+        ms.append(f'(({dt.coq_string(m["name"])}, {int(m["arity"])}%N), mkmacro {dt.strs_to_coq(m["params"])} '
+                  f'{dt.strs_to_coq(m["locals"])} [' + ';\n   '.join(stmt_coq(x) for x in m['ops']) + f'] '
+                  f'{dt.coq_string(m["namespace"])} {dt.pos_to_coq(m["pos"])})')
+    return '[' + ';\n '.join(ms) + ']'
+
+
 def model_term(case, tree):
     ww = {8: 3, 16: 4, 32: 5, 64: 6}[case['w']]
     md = case.get('max_depth')
     md = 900 if md is None else md
     return (f'(mkcase (mkcfg {case["w"]}%Z {case["v"]}%N {md}%nat {EXPR_LIMIT}%nat {REP_LIMIT}%Z {PAD_LIMIT}%Z {BIT_LIMIT}%Z)\n'
-            f' {dt.tree_to_coq(tree)})'), ww
+            f' {tree_coq(tree)})'), ww
 
 
 def pre_tree(case):
@@ -278,7 +351,9 @@ def compare_with_model(ctx, cases, obs):
         if c.get('pre') is not None:
             todo.append((c, o, 'pre'))
         elif o['result'] == 'ok' or (o['result'] == 'exception' and o.get('stage') not in ('parse', 'parser-fold', 'api')):
-            if len(c['text']) < 6000:
+            # the tree translator (dump_tree.py) is recursive: trees too deep for it are only compared through `pre`
+            deep = c['cls'] == 'recursion' or o.get('cause') == 'RecursionError' or max(map(len, c['text'].split('\n'))) > 1500
+            if len(c['text']) < 6000 and not deep:
                 todo.append((c, o, 'dump'))
     limit = ctx.n(700, 8000)
     pre = [t for t in todo if t[2] == 'pre']
@@ -286,7 +361,11 @@ def compare_with_model(ctx, cases, obs):
     ctx.rng.shuffle(dump)
     todo = pre[:limit] + dump[:max(0, limit - len(pre))]
     jobs = [{'w': c['w'], 'sources': [['f1', c['text']]]} for c, o, how in todo if how == 'dump']
-    dumped = iter(dt.dump_sources(ctx, jobs))
+    try:
+        dumped = iter(dt.dump_sources(ctx, jobs))
+    except RuntimeError as e:       # the translator fails closed (worker dies) on a shape it does not know
+        ctx.broken_tie('tree dump of the programs that parse (dump_tree.py)', str(e))
+        return
     terms, meta = [], []
     for c, o, how in todo:
         if how == 'pre':
@@ -314,6 +393,7 @@ def compare_with_model(ctx, cases, obs):
     # the model's verdict code and file code, compared in Python (so that a disagreement can be triaged)
     shard = 60
     outs = []
+    shard_secs = []
     shards = [terms[i:i + shard] for i in range(0, len(terms), shard)]
 
     def one(idx_ts):
@@ -322,7 +402,9 @@ def compare_with_model(ctx, cases, obs):
         body = COQ_HEADER + 'Definition cases := [\n' + ';\n'.join(ts) + '\n].\n' + \
             'Eval vm_compute in (map case_codes cases).\n'
         path.write_text(body)
+        t0 = time.time()
         rc, out = fw.coqc_file(path, 900)
+        shard_secs.append(round(time.time() - t0, 1))
         if rc != 0:
             return None, out
         pairs = re.findall(r'\(\s*(\d+)\s*,\s*(\d+)\s*\)', out)
@@ -358,6 +440,7 @@ def compare_with_model(ctx, cases, obs):
                 ctx.violation(sig, what + ' (also: the Coq model predicts another outcome)', replay_of(c, o))
         else:
             ctx.broken_tie('C14 model correspondence (AsmErrors.assemble_model vs flipjump.assemble)', detail)
+    ctx.coverage['model_shard_secs'] = sorted(shard_secs)
     ctx.coverage['model_cases'] = len(meta)
     ctx.coverage['model_agree'] = agree
 
@@ -365,17 +448,26 @@ def compare_with_model(ctx, cases, obs):
 # ---- run / replay ------------------------------------------------------------------------------------------------------
 
 def run(ctx):
+    phases = ctx.coverage.setdefault('phase_secs', {})
+    t0 = time.time()
     fw.static_proofs(ctx, ['Properties/C14.v'])
+    phases['static proofs'] = round(time.time() - t0, 1)
+    t0 = time.time()
     cases, cobs = build_cases(ctx)
+    phases['corpus'] = round(time.time() - t0, 1)
+    t0 = time.time()
     for c in cases[len(cobs):]:
         c['timeout'] = WATCHDOG if c.get('slow') else FIRST_PASS
     obs = cobs + run_cases(ctx, cases[len(cobs):])
     # watchdog expiries are re-run in isolation, with the full period, before being believed
-    again = [i for i, o in enumerate(obs) if o['result'] in ('hang', 'crash') and not cases[i].get('slow')]
+    again = [i for i, o in enumerate(obs) if o['result'] in ('hang', 'crash') and not cases[i].get('slow')
+             and cases[i]['cls'] != 'corpus']     # (an unmodified program that needs longer is just not mutated)
     if again:
         redo = run_cases(ctx, [dict(cases[i], id=f'redo{i}', timeout=WATCHDOG) for i in again])
         for i, o in zip(again, redo):
             obs[i] = o
+    phases['campaign'] = round(time.time() - t0, 1)
+    t0 = time.time()
     found = {}
     for c, o in zip(cases, obs):
         nontrivial = o['result'] != 'ok'
@@ -402,7 +494,9 @@ def run(ctx):
                 found[k] = (c, o, sig, what)
     for k in sorted(found):
         c, o, sig, what = found[k]
-        c2 = shrink(ctx, c, sig)
+        listed = any(f['property'] == ctx.prop and all(sig.get(a) == b for a, b in f['match'].items())
+                     for f in ctx.findings.get('findings', []))
+        c2 = c if listed else shrink(ctx, c, sig)       # a listed finding is only named, not minimised again
         if c2 is not c:
             o2 = run_cases(ctx, [dict(c2, id='min')])[0]
             if any(s == sig for s, _ in judge(c2, o2)):
@@ -417,7 +511,10 @@ def run(ctx):
         if o['result'] == 'exception' and o['catch_all']:
             ctx.sample({'source': (c['text'] if isinstance(c['text'], str) else repr(c['text']))[:200], 'w': c['w'], 'v': c['v'],
                         'observed': {k: o[k] for k in ('cls', 'cause', 'frame', 'stage', 'out_exists')}}, limit=6)
+    phases['shrink and report'] = round(time.time() - t0, 1)
+    t0 = time.time()
     compare_with_model(ctx, cases, obs)
+    phases['model correspondence'] = round(time.time() - t0, 1)
     ctx.coverage['rule'] = (
         'badProgGen: one generator per error class (lexing, syntax, unknown/duplicate macro or label and arity, alignment/'
         'overlap, out-of-range words x every (w, version), /0 %0 <<neg >>neg **neg x {parser-time folding, parameter '
